@@ -87,6 +87,12 @@ theorem decided_pc (q : Req) (e : ErrKind) (c : Bool) :
 @[simp] theorem decided_hist (q : Req) (e : ErrKind) (c : Bool) : (q.decided e c).hist = q.hist := by
   unfold Req.decided; split <;> rfl
 
+@[simp] theorem decided_holder (q : Req) (e : ErrKind) (c : Bool) : (q.decided e c).holder = q.holder := by
+  unfold Req.decided; split <;> rfl
+
+@[simp] theorem decided_hostOf (q : Req) (e : ErrKind) (c : Bool) : (q.decided e c).pc.hostOf = none := by
+  rcases decided_pc q e c with h | h <;> simp [h, Pc.hostOf]
+
 @[simp] theorem decided_incs (q : Req) (e : ErrKind) (c : Bool) : (q.decided e c).incs = q.incs := by
   unfold Req.decided; split <;> rfl
 
@@ -219,7 +225,7 @@ theorem inv_cancel {s s' : State} {c} (hi : Inv s) (hs : stepCancel s c = some s
   unfold stepCancel at hs
   split at hs
   next cs hcs =>
-    simp at hs; subst hs
+    simp at hs; obtain ⟨_, hs⟩ := hs; subst hs
     refine inv_cfg_only hi rfl rfl rfl rfl rfl ?_
     intro x hx
     exact canceled_set x _ hcs rfl (by simp) hx
@@ -316,7 +322,7 @@ theorem inv_dispatch {s s' : State} {r h} (hi : Inv s) (hs : stepDispatch s r h 
   next q hq =>
     split at hs
     next hpc =>
-      simp at hs; subst hs
+      simp at hs; obtain ⟨_, hs⟩ := hs; subst hs
       refine ⟨?_, hi.fails_eq, ?_, hi.forgotten_due, hi.entry_ok, ?_, ?_, ?_, hi.src_countable⟩
       · intro o
         have h1 := hi.inflight_eq o
@@ -813,6 +819,64 @@ theorem inv_forget {s s' : State} {i} (hi : Inv s) (hs : stepForget s i = some s
     next => simp at hs
   next => simp at hs
 
+/-- a step that rewrites one request without touching anything the counters are compared with
+    (program counter, handler, parameters, history, ghost counts); configurations may be added -/
+theorem inv_req_same {s s' : State} {r : Nat} {q q' : Req} (hi : Inv s) (hq : s.reqs[r]? = some q)
+    (hr : s'.reqs = s.reqs.set r q') (h1 : s'.now = s.now) (h2 : s'.inflight = s.inflight)
+    (h3 : s'.fails = s.fails) (h5 : s'.log = s.log) (hc : ∀ x, canceled s x = true → canceled s' x = true)
+    (e1 : q'.pc = q.pc) (e2 : q'.cfg = q.cfg) (e3 : q'.par = q.par) (e4 : q'.hist = q.hist)
+    (e5 : q'.incs = q.incs) (e6 : q'.retries = q.retries) : Inv s' := by
+  refine ⟨?_, ?_, ?_, ?_, ?_, ?_, ?_, ?_, ?_⟩
+  · intro o
+    have h := total_set (inFlightW o) s.reqs r q' q hq
+    have : inFlightW o q' = inFlightW o q := by simp [inFlightW, e1]
+    simp only [sendingCount, h2, hr]; rw [hi.inflight_eq o]; simp only [sendingCount]; omega
+  · intro o; simp only [pendingForgetters, h3, h5]; exact hi.fails_eq o
+  · intro o c
+    have h := total_set (spawnerW o c) s.reqs r q' q hq
+    have : spawnerW o c q' = spawnerW o c q := by simp [spawnerW, e1, e2]
+    have := hi.counted_eq o c
+    simp only [countedNotSpawned, spawners, h5, hr] at this ⊢; omega
+  · intro e he hf
+    rw [h5] at he
+    rcases hi.forgotten_due e he hf with h | h
+    · left; rw [h1]; exact h
+    · right; exact hc _ h
+  · intro e he; rw [h5] at he; rw [h1]; exact hi.entry_ok e he
+  · intro x hx
+    rw [hr] at hx
+    rcases mem_set_cases hx with hm | hm
+    · exact hi.req_ok x hm
+    · subst hm; have := hi.req_ok q (mem_of_get hq); rw [e5, e4, e1]; exact this
+  · intro x hx
+    rw [hr] at hx
+    rcases mem_set_cases hx with hm | hm
+    · exact hi.retry_ok x hm
+    · subst hm; have := hi.retry_ok q (mem_of_get hq); rw [e6, e3, e5, e1]; exact this
+  · intro o
+    have h := total_set (aboutToCountW o) s.reqs r q' q hq
+    have h' := total_set (failedAttemptsW o) s.reqs r q' q hq
+    have : aboutToCountW o q' = aboutToCountW o q := by simp [aboutToCountW, e1, e3]
+    have : failedAttemptsW o q' = failedAttemptsW o q := by simp [failedAttemptsW, e3, e4]
+    have := hi.attempts_eq o
+    simp only [countedAttempts, aboutToCount, failedAttempts, h5, hr] at this ⊢; omega
+  · intro e he; rw [h5] at he; exact hi.src_countable e he
+
+theorem inv_newIter {s s' : State} {r} (hi : Inv s) (hs : stepNewIter s r = some s') : Inv s' := by
+  unfold stepNewIter at hs
+  split at hs
+  next q hq =>
+    split at hs
+    next hpc =>
+      split at hs
+      · simp at hs; subst hs
+        refine inv_req_same hi hq rfl rfl rfl rfl rfl ?_ rfl rfl rfl rfl rfl rfl
+        intro x hx
+        exact canceled_append x _ hx
+      · simp at hs
+    all_goals simp at hs
+  next => simp at hs
+
 theorem inv_step {s s' : State} (a : Action) (hi : Inv s) (hs : step s a = some s') : Inv s' := by
   cases a with
   | newCfg p => simp [step] at hs; subst hs; exact inv_newCfg p hi
@@ -827,6 +891,7 @@ theorem inv_step {s s' : State} (a : Action) (hi : Inv s) (hs : step s a = some 
   | finish r out => exact inv_finish hi hs
   | after r => exact inv_after hi hs
   | forget i => exact inv_forget hi hs
+  | newIter r => exact inv_newIter hi hs
   | tick => simp [step] at hs; subst hs; exact inv_tick hi
 
 theorem inv_reachable {s : State} (h : Reachable s) : Inv s := by
